@@ -4,6 +4,7 @@ CONSTANTS
   MaxN = 3
   AllSubsets = TRUE
   Refs = {0, 1, 2, 3, 4}
+  SymKinds = {}
   Canon = TRUE
   ValTab <- ValsPrime
   Kinds = {"R","Y","LV","V","VL","I","IL","S","O"}
